@@ -630,6 +630,22 @@ def judge(history, wres, refget):
                     else:
                         stats["ok"] += 1
                 continue
+        if w.get("canary"):
+            # canaries ran under whatever options this step left behind; alone they run under the options the session owns
+            from .world import CANARIES
+            for ci, (spec, steps) in enumerate(zip(CANARIES, w["canary"])):
+                r = refget(dict(spec, options=w.get("canary_options") or {}))
+                stats["units"] += 1
+                if r.get("status") != "done":
+                    continue
+                for name, wr in steps.items():
+                    rr = r["steps"].get(name)
+                    if rr is None:
+                        continue
+                    v3, d3 = (_cmp_goal(wr, rr, _numeric({"options": w.get("canary_options")})) if name.startswith("goal:") else _cmp_status(wr, rr))
+                    if v3 == "diff":
+                        problems.append(dict(d3, op=oi, sid=op["sid"], step=f"{step}+canary:{ci}:{name}", session_kind=sess["kind"], pid=sess.get("pid"),
+                                             note="an analysis performed right after this step, under the options the session had set, differs: the step changed global options"))
         stats["compared"] += 1
         if verdict == "diff":
             problems.append(dict(detail, op=oi, sid=op["sid"], step=step, session_kind=sess["kind"], pid=sess.get("pid")))
@@ -711,8 +727,10 @@ def _probes(case, wres):
     p["after_loop_goal"] = 1 if any(g.get("kind") == "after_loop" for s in case["sessions"] if s["kind"] == "lib" for g in s.get("goals", [])) else 0
     p["abandoned_or_repeated"] = 1
     # cause hint: a step after which the global options no longer equal the owning session's vector (CLI sessions own argv's options)
+    p["canaries_run"] = sum(1 for r in wres["results"] if r.get("canary"))
     p["settings_changed_during_step"] = sum(1 for o, r in zip(case["ops"], wres["results"])
-                                            if r.get("settings_as_owned") is False and case["sessions"][o["sid"]]["kind"] != "cli")
+                                            if r.get("settings_as_owned") is False and r.get("status") in ("ok", "refused")
+                                            and case["sessions"][o["sid"]]["kind"] != "cli")
     return p
 
 
